@@ -756,7 +756,7 @@ Definition f_saltpack_signcryptOpenStream_getNextChunk : gfunc := mkFunc "saltpa
 
 (* saltpack.signcryptOpenStream_tryBoxSecretKeys, signcrypt_open.go *)
 Definition f_saltpack_signcryptOpenStream_tryBoxSecretKeys : gfunc := mkFunc "saltpack.signcryptOpenStream_tryBoxSecretKeys" ["sos"; "hdr"; "ephemeralPub"] []
-     [SAssign ["derivedKeys"] [(ELit "[]SymmetricKey" [])];
+     [SAssign ["derivedKeys"] [(ECall "makemap" [])];
       SRange "_" "receiverBoxSecretKey" (ECall "SigncryptKeyring.GetAllBoxSecretKeys" [(ESel (EVar "sos") "keyring")])
       [SAssign ["derivedKey"] [(ECall "derivedEphemeralKeyFromBoxKeys" [(EVar "ephemeralPub"); (EVar "receiverBoxSecretKey")])];
       SAssign ["derivedKeys"] [(ECall "append" [(EVar "derivedKeys"); (EVar "derivedKey")])]];
@@ -769,13 +769,14 @@ Definition f_saltpack_signcryptOpenStream_tryBoxSecretKeys : gfunc := mkFunc "sa
       SIf [] (ENot (EVar "isValid"))
       [SReturn [ENil; (EErrVar "ErrDecryptionFailed")]]
       [];
-      SReturn [(ECall "symmetricKeyFromSlice" [(EVar "payloadKey")])]]
+      SAssign ["r'0"; "r'1"] [(ECall "symmetricKeyFromSlice" [(EVar "payloadKey")])];
+      SReturn [(EVar "r'0"); (EVar "r'1")]]
       []]];
       SReturn [ENil; ENil]].
 
 (* saltpack.signcryptOpenStream_trySharedSymmetricKeys, signcrypt_open.go *)
 Definition f_saltpack_signcryptOpenStream_trySharedSymmetricKeys : gfunc := mkFunc "saltpack.signcryptOpenStream_trySharedSymmetricKeys" ["sos"; "hdr"; "ephemeralPub"] []
-     [SAssign ["identifiers"] [(ELit "[][]byte" [])];
+     [SAssign ["identifiers"] [(ECall "makemap" [])];
       SRange "_" "receiver" (ESel (EVar "hdr") "Receivers")
       [SAssign ["identifiers"] [(ECall "append" [(EVar "identifiers"); (ESel (EVar "receiver") "ReceiverKID")])]];
       SIf [] (EBin OEq "bool" (ESel (EVar "sos") "resolver") ENil)
@@ -810,7 +811,8 @@ Definition f_saltpack_signcryptOpenStream_trySharedSymmetricKeys : gfunc := mkFu
       SIf [] (ENot (EVar "isValid"))
       [SReturn [ENil; (EErrVar "ErrDecryptionFailed")]]
       [];
-      SReturn [(ECall "symmetricKeyFromSlice" [(EVar "payloadKey")])]];
+      SAssign ["r'0"; "r'1"] [(ECall "symmetricKeyFromSlice" [(EVar "payloadKey")])];
+      SReturn [(EVar "r'0"); (EVar "r'1")]];
       SReturn [ENil; ENil]].
 
 (* saltpack.signcryptOpenStream_processHeader, signcrypt_open.go *)
